@@ -4,5 +4,5 @@ CONSTANTS
   MaxLen = 2
 SPECIFICATION Spec
 INVARIANTS TypeOK OutStructure CapsShape ErrIff EntropyComputedOnce DrawBudget UniformWhenCapitalisable MinEntropyHolds
-PROPERTIES PanicIsTerminal RecipeNeverWritten Terminates
+PROPERTIES RefinesPickPassword PanicIsTerminal RecipeNeverWritten Terminates
 CHECK_DEADLOCK FALSE
